@@ -15,7 +15,7 @@ import numpy as np
 from hypothesis import strategies as st
 from voluptuous import Schema, Required
 
-from vlib.core import Part, Violation, Discard, call
+from vlib.core import call_twice, Part, Violation, Discard, call
 
 from mitxgraders import (FormulaGrader, NumericalGrader, MatrixGrader, LinearComparer, MatrixEntryComparer,
                          congruence_comparer, between_comparer, eigenvector_comparer, vector_span_comparer,
@@ -33,7 +33,8 @@ RULE = ("Cases: per comparer a target written as full-precision literals (or for
         "residual recomputed in numpy: member iff residual <= tol/100 (must be accepted / matching), non-member iff "
         "residual >= 100*tol (must get no credit), otherwise discarded; expected credit computed from the "
         "member/non-member pattern. Non-trivial = transformation parameter non-trivial (k != 0, c != 1, theta != 0, "
-        "(a,b) != (1,0)), or a non-member, or a partial-credit outcome, or a wrong shape; distinct by spec.")
+        "(a,b) != (1,0)), or a non-member, or a partial-credit outcome, or a wrong shape; distinct by spec."
+        " Structured targets (vectors with zero unconjugated square, imaginary, axis vectors; rotation eigenbases), rescalings far from 1, and MatrixEntryComparer objects first used by a grader of another tolerance.")
 ASSUMPTIONS = [
     "a percentage tolerance is relative to 'the' reference value; where the statement leaves the reference open "
     "(target vs reduced target, student vs expected norm) the smallest candidate is used for members and the "
@@ -162,9 +163,8 @@ def muting(judge):
 
 def run(g, s, seed, rec):
     """-> (result dict | None, MITxError | None); anything else escapes (reported as uncaught/...)."""
-    set_seed(seed)
-    rec.calls()
-    kind, val = call(g, None, s)
+    rec.calls(2)
+    kind, val = call_twice(g, lambda: set_seed(seed), None, s)
     if kind == 'ok':
         return val, None
     if isinstance(val, MITxError):
